@@ -30,20 +30,22 @@ const VOCAB: [&str; 8] = ["T", "K", "U", "V", "Item", "Key", "Node", "Error"];
 /// Names the crate's own templates use (set once per process by the corpus harvester).
 static TEMPLATE_VOCAB: std::sync::OnceLock<(Vec<String>, Vec<String>)> = std::sync::OnceLock::new();
 
-static TESTED_WORDS: std::sync::OnceLock<Vec<String>> = std::sync::OnceLock::new();
+static TESTED_WORDS: std::sync::OnceLock<Vec<(String, usize)>> = std::sync::OnceLock::new();
 
-pub fn set_tested_words(words: &[String]) {
+/// (word, number of distinct examples of the repository that write it inside `#[educe(..)]`)
+pub fn set_tested_words(words: &[(String, usize)]) {
     let _ = TESTED_WORDS.set(words.to_vec());
 }
 
-/// parameter-like words of the source that no example in the repository ever writes inside
-/// `#[educe(..)]`: undocumented aliases and parameters a change has just introduced
+/// parameter-like words of the source that at most two examples in the repository write inside
+/// `#[educe(..)]`: undocumented aliases, and parameters a change has just introduced (with or
+/// without one documentation example)
 fn untested_param_words() -> Vec<&'static str> {
     let (Some(p), Some(t)) = (PARAM_WORDS.get(), TESTED_WORDS.get()) else { return vec![] };
     const PRIMS: [&str; 17] = ["bool", "char", "str", "i8", "i16", "i32", "i64", "i128", "isize", "u8", "u16", "u32", "u64", "u128", "usize", "f32", "f64"];
     p.iter()
         .filter(|w| w.chars().next().map(|c| c.is_lowercase()).unwrap_or(false))
-        .filter(|w| !t.contains(w) && !PRIMS.contains(&w.as_str()))
+        .filter(|w| !t.iter().any(|(tw, n)| tw == *w && *n > 2) && !PRIMS.contains(&w.as_str()))
         .map(|w| w.as_str())
         .collect()
 }
@@ -53,12 +55,34 @@ fn untested_param_words() -> Vec<&'static str> {
 /// repository's examples never use.
 pub fn param_probe(rng: &mut Rng, name: &str) -> String {
     let untested = untested_param_words();
-    let word: String = if !untested.is_empty() && rng.chance(7, 10) {
+    let word: String = if !untested.is_empty() && rng.chance(17, 20) {
         untested[rng.usize(untested.len())].to_string()
     } else {
         param_word(rng).unwrap_or("name").to_string()
     };
     let tr = *rng.pick(&TRAITS[..11]);
+    param_probe_for(rng, name, &word, tr)
+}
+
+pub fn rare_words() -> Vec<&'static str> {
+    untested_param_words()
+}
+
+/// how many untested parameter words the current tree has (0: no probe runs)
+pub fn untested_word_count() -> usize {
+    untested_param_words().len()
+}
+
+/// (word, trait) for a *probe run*: all targets of the run probe the same pair in different forms
+pub fn probe_pair(rng: &mut Rng) -> Option<(String, &'static str)> {
+    let u = untested_param_words();
+    if u.is_empty() {
+        return None;
+    }
+    Some((u[rng.usize(u.len())].to_string(), *rng.pick(&TRAITS[..11])))
+}
+
+pub fn param_probe_for(rng: &mut Rng, name: &str, word: &str, tr: &str) -> String {
     let req = match rng.below(5) {
         0 | 1 => format!("{tr}({word})"),
         2 => format!("{tr}({word} = {})", rng.pick(&["true", "false", "Shown", "\"text\"", "1"])),
